@@ -392,10 +392,18 @@ def units(tier, seed):
                             ["t23a", "t251a", "t65521b", "SECP112r1", "NIST192p", "NIST256p", "NIST521p"], "full": not q}))
     out.append(("random-bytes", {"examples": 1500 if q else 40000}))
     out.append(("cross-curve", {}))
+    out.append(("faults", {"jobset": 'keys', "arg": 'NIST192p', "examples": 40 if tier == "quick" else 1500, "triples": 400 if tier == "quick" else 20000}))
+    out.append(("faults", {"jobset": 'keys', "arg": 'SECP160r1', "examples": 40 if tier == "quick" else 1500, "triples": 400 if tier == "quick" else 20000}))
+    out.append(("faults", {"jobset": 'keys', "arg": 't23a', "examples": 40 if tier == "quick" else 1500, "triples": 400 if tier == "quick" else 20000}))
+    out.append(("faults", {"jobset": 'keys', "arg": 'BRAINPOOLP160r1', "examples": 40 if tier == "quick" else 1500, "triples": 400 if tier == "quick" else 20000}))
     return out
 
 
 def run_unit(ctx, name, **kw):
+    if name == "faults":
+        from . import faults
+        faults.run_set(ctx, **kw)
+        return
     if name == "toy":
         toy_sweep(ctx, kw["curve"], kw["qstep"], [bytes.fromhex(x) for x in kw["digests"]])
         ctx.sample({"curve": kw["curve"], "Q": "every %d-th multiple of G" % kw["qstep"], "digests": kw["digests"],
@@ -452,6 +460,10 @@ def run_unit(ctx, name, **kw):
 
 
 def replay(ctx, case):
+    if case.get("kind") == "fault-history":
+        from . import faults
+        faults.replay(ctx, case)
+        return
     if case.get("kind") == "history":
         long_history(ctx, case["curve"], case["round"] + 5)
     else:
